@@ -1140,25 +1140,58 @@ fn find_soa_name(verified_message: &DnsResponse) -> Option<&Name> {
 /// the security status of the names below. Per [RFC 6840 section
 /// 4.4](https://datatracker.ietf.org/doc/html/rfc6840#section-4.4) the NS bit must be set in the
 /// matching record (there is a delegation) and the SOA bit must be clear (the record comes from
-/// the parent side of it). If no authenticated record matches the name, the response was either
-/// accepted because of an NSEC3 opt-out span or because the parent zone itself is insecure.
+/// the parent side of it).
+///
+/// If no authenticated record matches the name, the response can still stand for an insecure
+/// delegation in two cases: the parent zone itself is insecure (no authenticated NSEC or NSEC3
+/// record at all), or the delegation lies in an NSEC3 opt-out span (NODATA accepted because of a
+/// covering opt-out record). An authenticated denial that covers the name with NSEC records, or
+/// any authenticated name error, proves that the name does not exist - there is no delegation.
 fn ds_denial_is_at_delegation(zone: &Name, response: &DnsResponse) -> bool {
-    response
+    let mut authenticated = (false, false); // any NSEC, any NSEC3
+    let mut matching = 0;
+    for record in response
         .authorities
         .iter()
         .filter(|record| record.proof.is_secure())
-        .filter_map(|record| match &record.data {
-            RData::DNSSEC(DNSSECRData::NSEC(nsec)) if record.name == *zone => {
-                Some(nsec.type_set())
+    {
+        let types = match &record.data {
+            RData::DNSSEC(DNSSECRData::NSEC(nsec)) => {
+                authenticated.0 = true;
+                if record.name != *zone {
+                    continue;
+                }
+                nsec.type_set()
             }
-            RData::DNSSEC(DNSSECRData::NSEC3(nsec3))
-                if nsec3_matches_name(&record.name, nsec3, zone) =>
-            {
-                Some(nsec3.type_set())
+            RData::DNSSEC(DNSSECRData::NSEC3(nsec3)) => {
+                authenticated.1 = true;
+                if !nsec3_matches_name(&record.name, nsec3, zone) {
+                    continue;
+                }
+                nsec3.type_set()
             }
-            _ => None,
-        })
-        .all(|types| types.contains(RecordType::NS) && !types.contains(RecordType::SOA))
+            _ => continue,
+        };
+
+        matching += 1;
+        if !types.contains(RecordType::NS) || types.contains(RecordType::SOA) {
+            return false;
+        }
+    }
+
+    if matching > 0 {
+        return true;
+    }
+
+    match authenticated {
+        // nothing authenticated: the status of the parent zone is inherited
+        (false, false) => true,
+        // only an NSEC3 opt-out span can leave a delegation without a matching record, and the
+        // response for it is NODATA
+        (false, true) => response.response_code == ResponseCode::NoError,
+        // NSEC chains have no opt-out: the name does not exist
+        (true, _) => false,
+    }
 }
 
 /// This verifies a DNSKEY record against DS records from a secure delegation.
